@@ -271,7 +271,7 @@ class AstBuilder:
             tokens = list(line_tokens)
 
             # Trim trailing empty lines
-            while tokens and not tokens[-1].matched_text:
+            while tokens and not tokens[-1].matched_text.strip():
                 tokens.pop()
 
             return "\n".join(token.matched_text for token in tokens)
